@@ -54,6 +54,10 @@ type Gen struct {
 	next uint64
 	cx   int64 // centre, E7
 	cy   int64
+
+	free      []b6.FeatureID            // points that may move anywhere (AddMovable)
+	radial    map[b6.FeatureID][2]int64 // ring points that may move along the ray from this centre (E7)
+	radialIDs []b6.FeatureID
 }
 
 func NewGen(r *core.R, o GenOptions) *Gen {
@@ -330,6 +334,66 @@ func (g *Gen) World() []*Spec {
 	return out
 }
 
+// AddMovable creates features whose points can be moved without invalidating
+// anything: an open path over three new points (free moves) and a ring of k
+// points with a known centre, its closed path and an area over it (radial
+// moves keep the ring star-shaped, so the area stays valid and counter-
+// clockwise). Once registered, NextOp also draws point moves. The specs are
+// returned in dependency order and must be added to the world by the caller.
+func (g *Gen) AddMovable() []*Spec {
+	r := g.R
+	a, b, c := g.Point(0.5), g.Point(0.5), g.Point(0)
+	open := &Spec{ID: g.NewID(b6.FeatureTypePath, b6.NamespaceOSMWay), Tags: []b6.Tag{{Key: "#highway", Value: b6.NewStringExpression("primary")}},
+		Path: []Elem{{Ref: a.ID}, {Ref: c.ID}, {Ref: b.ID}}}
+	g.free = append(g.free, a.ID, b.ID, c.ID)
+	dx, dy := int64(150000+r.Intn(20000)), int64(-150000-r.Intn(20000))
+	ps, ring := g.Ring(dx, dy, 4000, r.Range(4, 6), false)
+	area := &Spec{ID: b6.FeatureID{Type: b6.FeatureTypeArea, Namespace: ring.ID.Namespace, Value: ring.ID.Value},
+		Tags: []b6.Tag{{Key: "#building", Value: b6.NewStringExpression("yes")}}, Polys: []Poly{{PathIDs: []b6.FeatureID{ring.ID}}}}
+	g.Reserve(area.ID)
+	if g.radial == nil {
+		g.radial = map[b6.FeatureID][2]int64{}
+	}
+	for _, p := range ps {
+		g.radial[p.ID] = [2]int64{g.cx + dx, g.cy + dy}
+		g.radialIDs = append(g.radialIDs, p.ID)
+	}
+	out := []*Spec{a, b, c, open}
+	out = append(out, ps...)
+	return append(out, ring, area)
+}
+
+func roundE7(deg float64) int64 { return int64(math.Round(deg * 1e7)) }
+
+// MoveOp draws a move of one of the movable points (see AddMovable).
+func (g *Gen) MoveOp(m *World) (Op, bool) {
+	r := g.R
+	if len(g.free)+len(g.radialIDs) == 0 {
+		return Op{}, false
+	}
+	if len(g.radialIDs) > 0 && (len(g.free) == 0 || r.Bool()) {
+		id := core.Pick(r, g.radialIDs)
+		s, ok := m.F[id]
+		if !ok {
+			return Op{}, false
+		}
+		c := g.radial[id]
+		f := 0.85 + 0.3*r.Float()
+		lat, lng := roundE7(s.LL.Lat.Degrees()), roundE7(s.LL.Lng.Degrees())
+		moved := s.Clone()
+		moved.LL = E7(c[0]+int64(math.Round(f*float64(lat-c[0]))), c[1]+int64(math.Round(f*float64(lng-c[1]))))
+		return Op{Kind: "add", Spec: moved}, true
+	}
+	id := core.Pick(r, g.free)
+	s, ok := m.F[id]
+	if !ok {
+		return Op{}, false
+	}
+	moved := s.Clone()
+	moved.LL = g.Place(int64(r.Intn(200000))-100000, int64(r.Intn(200000))-100000)
+	return Op{Kind: "add", Spec: moved}, true
+}
+
 // Op is one edit of a history.
 type Op struct {
 	Kind string // add | addtag | removetag
@@ -356,6 +420,11 @@ func (o Op) String() string {
 // every generated AddFeature is valid (rejections are the subject of C13).
 func (g *Gen) NextOp(m *World) Op {
 	r := g.R
+	if len(g.free)+len(g.radialIDs) > 0 && r.Chance(0.12) {
+		if op, ok := g.MoveOp(m); ok {
+			return op
+		}
+	}
 	ids := m.IDs()
 	switch k := r.Intn(10); {
 	case k < 4 && len(ids) > 0: // addtag
